@@ -659,7 +659,7 @@ def run(tier, seed):
     gc_scope = ("all %d subsets of %d cond-out entries %s in a scratch project with a real sqlite version index"
                 % (2 ** n_entries, n_entries, json.dumps(entry_labels)))
     return [
-        dele.result("C13.gc.deletes_exactly_unrecorded", ["C13", "C06"], "cli/gc.py::main",
+        dele.result("C13.gc.deletes_exactly_unrecorded", ["C13", "C06", "C08"], "cli/gc.py::main",
                     gc_scope + " x {no flag, -v}, run from the project root", True,
                     "distinct (tree, flags); non-trivial = at least two entries and something to delete", wall_gc),
         dry.result("C13.gc.dry_run_lists_exactly_and_deletes_nothing", "C13", "cli/gc.py::main",
